@@ -133,6 +133,8 @@ func (p c19) Gen(r *simhook.Rand, tier string, idx int) harness.Scenario {
 
 func (p c19) Run(t *testing.T, s harness.Scenario) harness.Outcome {
 	sc := s.(*C19Scenario)
+	simhook.DenseYields = true
+	defer func() { simhook.DenseYields = false }()
 	switch sc.Kind {
 	case "counter":
 		return p.runCounter(sc)
